@@ -3,7 +3,7 @@
 (* Code -> specification for engine E3: every observation the harness made *)
 (* on the real library (one executor / setup / call per row) is compared   *)
 (* with what Selection.tla defines.  Input (IOEnv.CASE_FILE):              *)
-(*   {"dags": [ {n, deps, kind, const, built, obs: [row, ...]}, ... ]}     *)
+(*   {"dags": [ {n, deps, kind, const, built, setuparg, obs: [row, ...]} ]} *)
 (* row = [mode, pre, r, x, t, bogus,                                       *)
 (*        errOff, gOff, eOff, dupOff, retOff, badOff,                      *)
 (*        errOn,  gOn,  eOn,  dupOn,  retOn,  badOn]                       *)
@@ -79,7 +79,8 @@ Row(dd, jj) ==
   IN [off |-> off, on |-> on, both |-> both]
 
 DagLevel(dd) == Clauses({
-   <<Legal(Ds[dd]) /\ ~Dags[dd].built, "C11.legal-rejected">>,
+   <<Dags[dd].setuparg # 0 /\ Dags[dd].built, "C11.setup-takes-dag-argument">>,
+   <<Dags[dd].setuparg = 0 /\ Legal(Ds[dd]) /\ ~Dags[dd].built, "C11.legal-rejected">>,
    <<~Legal(Ds[dd]) /\ Dags[dd].built /\ \E n \in Nodes(Ds[dd]) : Ds[dd].kind[n] = "setup" /\ \E x \in Ds[dd].deps[n] : Ds[dd].kind[x] # "setup", "C11.illegal-built">>,
    <<~Legal(Ds[dd]) /\ Dags[dd].built /\ \E n \in Nodes(Ds[dd]) : Ds[dd].kind[n] # "debug" /\ \E x \in Ds[dd].deps[n] : Ds[dd].kind[x] = "debug", "C13.illegal-built">>})
 
